@@ -211,14 +211,18 @@ def inject(run, i, tree, root, fault):
         run.violation("%s fault inside module %s raised %s: %s" % (fault, victim.relpath, type(e).__name__, str(e).replace("\n", " ")[:200]), case)
         return
     run.count("faults_injected")
+    if fault in ("syntax", "eof"):
+        # a random insertion / cut can leave a well-formed (if shorter) module - e.g. a cut at a
+        # declaration boundary, '}' inside a comment.  Then there is no error *inside* the module
+        # (the importer may still fail because a declaration is gone): judge only real module errors
+        try:
+            alone, _ = PC.parse_file(p)
+        except BaseException:
+            alone = None
+        if alone is not None and alone.is_ok():
+            run.count("faults_that_left_a_valid_module")
+            return
     if res.is_ok():
-        if fault in ("syntax", "eof"):
-            # a random insertion / cut can leave a well-formed module (e.g. cut at a declaration
-            # boundary, '}' inside a comment): judge by re-parsing the module alone
-            alone, _ = PC.parse_string(bad)
-            if alone.is_ok():
-                run.count("faults_that_left_a_valid_module")
-                return
         run.violation("%s fault inside module %s was accepted" % (fault, victim.relpath), case)
         return
     msg = repr(res.err())
